@@ -849,6 +849,17 @@ def rule_search_start(ctx, prop):
                 else:
                     pos = True     # stdin without a file path: the current directory itself
                 ok = pos and not denied
+                # the root (where the upward walk stops) is the resolver's own answer for the option, in file mode and
+                # in stdin mode alike
+                rcalls = sorted(_deep_calls(f, t["args"][2])) if len(t["args"]) > 2 else []
+                rok = any(c.endswith("get_configuration_search_root") for c in rcalls)
+                rep.inst(f"{f.key} search root = get_configuration_search_root()", {"root_from": [c.split("::")[-1] for c in rcalls]}, cfg, ok=rok)
+                if not rok:
+                    rep.violation(f"{f.key} search-root-not-from-option",
+                                  f"{f.path} hands find_config_file a search root that is not get_configuration_search_root() "
+                                  f"(derived through {[c.split('::')[-1] for c in rcalls] or 'a local value'}): "
+                                  f"--search-parent-directories is ignored (or always on) on this path, so stdin and file mode "
+                                  f"resolve different configurations for the same directory", f.loc(t["sp"]), cfg)
                 rep.inst(f"{f.key} search starts at parent(cwd.join(path))", {"derived_through": [c.split("::")[-1] for c in calls]}, cfg, ok=ok)
                 if not ok:
                     what = f"resolved-through {','.join(c.split('::')[-1] for c in denied)}" if denied else "not-parent-of-joined-path"
